@@ -33,6 +33,20 @@ int main() {
     catch (const std::exception &e) { std::cout << "rank 40: rejected (" << e.what() << ")\n"; }
     std::cout << "arrays before " << na << " after " << b.dataArrayCount() << "\n";
     if (b.dataArrayCount() != na) bad++;
+    // Bool array, numeric data
+    DataArray db = b.createDataArray("ab", "t", DataType::Bool, NDSize({3}));
+    NDSize bb = db.dataExtent();
+    try { db.setData(std::vector<double>{1, 0, 1, 1, 0}); std::cout << "setData double->Bool: accepted\n"; }
+    catch (const std::exception &e) { std::cout << "setData double->Bool: rejected (" << e.what() << ")\n"; }
+    std::cout << "extent before " << bb << " after " << db.dataExtent() << "\n";
+    if (db.dataExtent() != bb) bad++;
+    DataArray dc = b.createDataArray("ac", "t", DataType::Double, NDSize({3}));
+    NDSize bc = dc.dataExtent();
+    char cc[2] = {'a','b'};
+    try { dc.appendData(DataType::Char, cc, NDSize({2}), 0); std::cout << "append Char: accepted\n"; }
+    catch (const std::exception &e) { std::cout << "append Char: rejected (" << e.what() << ")\n"; }
+    std::cout << "extent before " << bc << " after " << dc.dataExtent() << "\n";
+    if (dc.dataExtent() != bc) bad++;
     f.close();
     return bad ? 1 : 0;
 }
